@@ -333,6 +333,12 @@ func runTDSchedule(t *testing.T, col *verifsim.Collector, kind string, specs []t
 					}
 				}
 			}
+			// which of several waiters gets a released lock is up to the Go scheduler: to keep the comparison with the
+			// model deterministic there is at most one blocked thread at a time - while one is blocked only threads
+			// parked in a callback (among them the lock holder) are resumed
+			if w.anyBlocked() && w.threads[i].status != "SParked" {
+				return
+			}
 			w.runThread(i)
 			// threads that were blocked may have been released by this step and run on by themselves
 			var js []string
